@@ -202,6 +202,12 @@ func HandleSelectStmt(p *SelectPlan, stmt *ast.SelectStmt) error {
 
 		handleExtraFieldList(p, stmt)
 
+		// a column appended for GROUP BY / ORDER BY may itself be an aggregate (ORDER BY SUM(x)): it has to be merged
+		// across shards like the aggregates of the select list, or the rows are sorted by one shard's partial value
+		if err := handleExtraAggregateFields(p, stmt); err != nil {
+			return fmt.Errorf("handle extra aggregate fields error: %v", err)
+		}
+
 		// 记录补列后的Fields长度, 后面的handler不会补列了
 		if stmt.Fields != nil {
 			p.columnCount = len(stmt.Fields.Fields)
@@ -275,6 +281,30 @@ func handleOrderBy(p *SelectPlan, stmt *ast.SelectStmt) error {
 	}
 
 	stmt.Fields.Fields = append(stmt.Fields.Fields, orderByFields...)
+	return nil
+}
+
+// handleExtraAggregateFields registers a merger for every appended (group by / order by) column that is an aggregate
+func handleExtraAggregateFields(p *SelectPlan, stmt *ast.SelectStmt) error {
+	if stmt.Fields == nil {
+		return nil
+	}
+	for i := p.originColumnCount; i < len(stmt.Fields.Fields); i++ {
+		field, ok := stmt.Fields.Fields[i].Expr.(*ast.AggregateFuncExpr)
+		if !ok {
+			continue
+		}
+		if _, exists := p.aggregateFuncs[i]; exists {
+			continue
+		}
+		merger, err := CreateAggregateFunctionMerger(field, i)
+		if err != nil {
+			return fmt.Errorf("create aggregate function merger error, column index: %d, err: %v", i, err)
+		}
+		if err := p.setAggregateFuncMerger(i, merger); err != nil {
+			return fmt.Errorf("set aggregate function merger error, column index: %d, err: %v", i, err)
+		}
+	}
 	return nil
 }
 
